@@ -58,6 +58,8 @@ Example C03_example :
   /\ run_forward t 5 1%Z = 110%Z.
 Proof. vm_compute. split; reflexivity. Qed.
 
+From AG Require Import TopoTie.
+From AGGen Require Import GenTopo.
 From AG Require Import Tagged Tower TaggedProof TowerAlg FwdCorrect TowerRing MixInterp MixStep MixBackward MixEval.
 
 (* (4) the same on the engine model itself (one global node store shared by all
@@ -73,3 +75,17 @@ Theorem C03_engine_backward_pass :
           (Tagged.backward_pass Z Z.add Z.sub Z.mul Z.opp zF Z.sgn f (VNum Z 1%Z) en s).
 Proof. exact backward_pass_good. Qed.
 Print Assumptions C03_engine_backward_pass.
+
+(* (5) the tie of (1)-(3) to the source text: the two loops of util.toposort and the loop of core.backward_pass, translated
+   statement by statement from /repo's working tree on this run (coq/gen/GenTopo.v), are the model the theorems above are
+   about - for every graph, end node, fuel and cotangent type. *)
+Theorem C03_toposort_model_follows_source :
+  forall (parents : nat -> list nat) (e : nat), Toposort.toposort parents e = gen_toposort parents e.
+Proof. exact toposort_follows_source. Qed.
+Print Assumptions C03_toposort_model_follows_source.
+
+Theorem C03_backward_pass_model_follows_source :
+  forall (parents : nat -> list nat) (V : Type) (vadd : V -> V -> V) (vjpk : nat -> nat -> V -> V) (g : V) (e : nat),
+    Backward.backward_pass V vadd parents vjpk g e = gen_backward_pass V vadd parents vjpk g e.
+Proof. exact backward_pass_follows_source. Qed.
+Print Assumptions C03_backward_pass_model_follows_source.
